@@ -49,7 +49,10 @@ func genC09(rng *rand.Rand, tier string) *sim.Plan {
 		}
 		return op
 	}
-	p.Phases = append(p.Phases, sim.Phase{Ops: []sim.Op{conn(0, "never"), conn(1, ""), conn(2, "")}})
+	// 3: a v5 client with Session Expiry Interval 0: its session ends with its connection, crash included
+	p.Clients = append(p.Clients, sim.ClientSpec{ID: ids[3], Ver: 5})
+	p.Phases = append(p.Phases, sim.Phase{Ops: []sim.Op{conn(0, "never"), conn(1, ""), conn(2, ""),
+		{K: "connect", C: 3, Clean: false, ExpiryS: sim.U32(0)}, {K: "subscribe", C: 3, Subs: []mqttc.Sub{{Filter: "eph/#", QoS: 1}}}}})
 	subq := byte(1 + rng.IntN(2))
 	var sp sim.Phase
 	for _, c := range []int{0, 1} {
@@ -342,6 +345,7 @@ func runC09(tb TB, p *sim.Plan) *sim.Outcome {
 		simredis.Install(storeB)
 		pb := &sim.Plan{Prop: "C09", Seed: p.Seed, Broker: p.Broker, Net: sim.NetCfg{Seed: p.Net.Seed, LatMaxUs: 5}, Sched: sim.SchedCfg{Seed: p.Sched.Seed + uint64(k), SwitchProb: 0.1}}
 		pb.Clients = append(append([]sim.ClientSpec{}, p.Clients...), sim.ClientSpec{ID: "probe-zz", Ver: 4})
+		probe := len(pb.Clients) - 1
 		var c0 sim.Phase
 		for i := 0; i < 3; i++ {
 			op := sim.Op{K: "connect", C: i, Clean: false}
@@ -350,7 +354,8 @@ func runC09(tb TB, p *sim.Plan) *sim.Outcome {
 			}
 			c0.Ops = append(c0.Ops, op)
 		}
-		c0.Ops = append(c0.Ops, sim.Op{K: "connect", C: 3, Clean: true})
+		c0.Ops = append(c0.Ops, sim.Op{K: "connect", C: 3, Clean: false, ExpiryS: sim.U32(0)})
+		c0.Ops = append(c0.Ops, sim.Op{K: "connect", C: probe, Clean: true})
 		c0.TimeoutS = 20
 		pb.Phases = append(pb.Phases, c0)
 		// the publisher retransmits its QoS 2 publishes whose PUBREL it withheld
@@ -360,7 +365,7 @@ func runC09(tb TB, p *sim.Plan) *sim.Outcome {
 				rp.Ops = append(rp.Ops, sim.Op{K: "publish", C: 2, Topic: "d/x", QoS: 2, PID: pf.pid, Dup: true, Payload: pf.payload, HoldRel: true})
 			}
 		}
-		rp.Ops = append(rp.Ops, sim.Op{K: "api_custom", C: -1, Custom: "c09_dump"}, sim.Op{K: "publish", C: 3, Topic: "d/x", QoS: 1, Payload: "probe"})
+		rp.Ops = append(rp.Ops, sim.Op{K: "api_custom", C: -1, Custom: "c09_dump"}, sim.Op{K: "publish", C: probe, Topic: "d/x", QoS: 1, Payload: "probe"})
 		rp.TimeoutS = 20
 		pb.Phases = append(pb.Phases, rp)
 		// the publisher completes the withheld QoS 2 flows and then uses the same packet identifiers for new messages
@@ -408,6 +413,16 @@ func runC09(tb TB, p *sim.Plan) *sim.Outcome {
 				vs = append(vs, viol("C09", "sessions", "session-lost", "%s: session of client %q was acknowledged after %d commands but is gone (Session Present 0)", where, p.Clients[i].ID, kc))
 			}
 		}
+		// C09.ephemeral: a session whose expiry interval was 0 ended when the broker (and with it the
+		// connection) died: it must not be resumed after the restart
+		for _, o := range b.H.Ops {
+			if o.Op.K == "connect" && o.Op.C == 3 && o.Ack != nil && o.Ack.Code == 0 {
+				out.Probes["ephemeral_checked"]++
+				if o.Ack.SessionPresent {
+					vs = append(vs, viol("C09", "ephemeral", "resumed-after-restart", "%s: client %q had connected with Session Expiry Interval 0; after the restart its CONNECT (Clean Start 0) is answered with Session Present 1", where, p.Clients[3].ID))
+				}
+			}
+		}
 		// C09.subs
 		var dump *c09dump
 		for _, o := range b.H.Ops {
@@ -427,6 +442,15 @@ func runC09(tb TB, p *sim.Plan) *sim.Outcome {
 			}
 			for _, sf := range subs {
 				cid := p.Clients[sf.client].ID
+				if sf.client == 3 {
+					// the session with expiry interval 0: once the client has come back (not resumed) nothing of it is left
+					for _, sv := range dump.Subs[cid] {
+						if sv.Filter == sf.sub.Filter {
+							vs = append(vs, viol("C09", "ephemeral", "subscription-survives", "%s: subscription %q of client %q, whose session had expiry interval 0, is still in place after the restart and its reconnect", where, sf.sub.Filter, cid))
+						}
+					}
+					continue
+				}
 				var found *sim.SubView
 				for i := range dump.Subs[cid] {
 					sv := &dump.Subs[cid][i]
